@@ -82,7 +82,9 @@ impl Scenario for Co {
                 Ok(f) => f,
                 Err(_) => return Box::pin(async { Outcome::Layer("PanickedInCall".into()) }),
             };
-            trv_core::world::keep(f, |r| match r {
+            // (errors are judged on a clone of what was returned: the leader's error reaches the
+            // waiters through Clone, and a layer stacked on this one would clone it again)
+            trv_core::world::keep(f, |r| match r.map_err(|e| e.clone()) {
                 Ok(r) => Outcome::Ok(r),
                 Err(CoalesceError::Service(e)) => Outcome::Inner(e),
                 Err(CoalesceError::LeaderCancelled) => Outcome::Layer("LeaderCancelled".into()),
